@@ -18,6 +18,7 @@ func init() {
 			"C07.guard: the pooled-object fields are accessed only under readMu / writeFrameMu / writeMu (teardown acquires them with forceLock first)",
 			"C07.escape / C07.ws: wsjson.read defers bpool.Put right after Get and passes b.Bytes() only to json.Unmarshal; Reader/Writer return the per-connection reader/writer objects",
 			"C07.funnel: callback fields hold only the known library callbacks",
+			"C07.clients: the clients of every pool getter (flate reader/writer, bufio reader/writer, bpool, sliding windows) and the inventory of process-wide pools are frozen: isolation is decided per client",
 		},
 		NotDecided: []string{"byte provenance under real races", "completeness of the standard library's Reset methods (trusted)"},
 		Trusted:    []string{"go/types, go/ssa", "sync.Pool, flate/bufio Reset contracts", "E2 lock analysis, E6 call graph"},
